@@ -96,7 +96,7 @@ class C10Oracle(worldprop.Oracle):
 
 def classify(f, ops):
     c = c01.classify(f, ops)
-    return {"C01-F1": "C10-F1", "C01-F2": "C10-F2", "C01-F3": "C10-F3"}.get(c)
+    return {"C01-F1": "C10-F1", "C01-F2": "C10-F2", "C01-F3": "C10-F3", "C01-F4": "C10-F4"}.get(c)
 
 
 def run(tier, seed, log, model_runs=True, enlarged=False):
